@@ -404,6 +404,7 @@ func (i *invoker) bidiStream(
 
 	var protoErr *conformancev1.Error
 	totalRcvd := 0
+	recvDone := false
 	for i, msg := range req.RequestMessages {
 		bsr := &conformancev1.BidiStreamRequest{}
 		if err := msg.UnmarshalTo(bsr); err != nil {
@@ -441,6 +442,7 @@ func (i *invoker) bidiStream(
 				}
 				// Reads are done either because we received an error or an EOF
 				// In either case, break the outer loop
+				recvDone = true
 				break
 			}
 			// On successful receive, get the returned payload.
@@ -472,8 +474,8 @@ func (i *invoker) bidiStream(
 		return result, nil
 	}
 
-	// Receive any remaining responses
-	for {
+	// Receive any remaining responses (unless the response stream has already ended)
+	for !recvDone {
 		msg, err := stream.Receive()
 		if err != nil {
 			if !errors.Is(err, io.EOF) {
